@@ -110,14 +110,14 @@ func (c *c19Ctx) genScenario(seed uint64, progs []*c19Prog) *Scenario {
 			s.LstKind = "parent_missing"
 		}
 	}
-	srcKinds := []string{"file", "missing", "dir", "mode000", "symlink_ok", "dangling", "loop", "spacename", "nonascii_name", "longname", "same_as_dst"}
-	s.SrcKind = srcKinds[r.weighted([]int{80, 3, 2, 2, 2, 1, 1, 2, 2, 1, 2})]
+	srcKinds := []string{"file", "missing", "dir", "mode000", "symlink_ok", "dangling", "loop", "spacename", "nonascii_name", "longname", "same_as_dst", "emptyarg"}
+	s.SrcKind = srcKinds[r.weighted([]int{80, 3, 2, 2, 2, 1, 1, 2, 2, 1, 2, 1})]
 	if r.Chance(1, 16) && len(s.Header)+len(s.Body) > 0 {
 		s.Break = 1 + r.Intn(4)
 		s.BreakLine = r.Intn(len(s.Header) + len(s.Body))
 	}
-	dstKinds := []string{"absent", "empty", "shorter", "equal", "longer", "old_image", "ro_file", "ro_dir", "parent_missing", "parent_is_file", "is_dir", "symlink_file", "dangling_symlink", "dev_full", "relative", "dotdot", "longname"}
-	s.DstKind = dstKinds[r.weighted([]int{35, 4, 8, 5, 10, 6, 3, 3, 3, 2, 3, 3, 2, 3, 4, 3, 1})]
+	dstKinds := []string{"absent", "empty", "shorter", "equal", "longer", "old_image", "ro_file", "ro_dir", "parent_missing", "parent_is_file", "is_dir", "symlink_file", "dangling_symlink", "dev_full", "relative", "dotdot", "longname", "emptyarg"}
+	s.DstKind = dstKinds[r.weighted([]int{35, 4, 8, 5, 10, 6, 3, 3, 3, 2, 3, 3, 2, 3, 4, 3, 1, 1})]
 	if s.SrcKind == "same_as_dst" {
 		s.DstKind = "absent"
 	}
@@ -144,7 +144,7 @@ func (c *c19Ctx) genScenario(seed uint64, progs []*c19Prog) *Scenario {
 			st := sites[r.Intn(len(sites))]
 			s.Fault = &Fault{Kind: "strace", Target: st.target, Syscall: st.syscall, When: r.Range(1, 3), Errno: pick(r, errnos)}
 		}
-		if s.Fault.Kind == "strace" && (s.DstKind == "dev_full") {
+		if s.Fault.Kind == "strace" && (s.DstKind == "dev_full" || s.DstKind == "emptyarg" || s.SrcKind == "emptyarg") {
 			// -P on a device node would also match nothing useful; keep the natural /dev/full fault alone
 			s.Fault = nil
 		}
